@@ -157,6 +157,9 @@ pub enum Op {
 pub enum SourceKind {
     /// Reader<&[u8]> (borrowing)
     Slice,
+    /// Reader::from_str / NsReader::from_str (borrowing; with the `encoding` feature the
+    /// encoding is locked to UTF-8). Only used for valid UTF-8 documents.
+    Str,
     /// our own BufRead
     SimBufRead,
     /// real std::io::BufReader::with_capacity(cap) over our Read
@@ -174,6 +177,7 @@ impl SourceKind {
     pub fn name(self) -> &'static str {
         match self {
             SourceKind::Slice => "Slice",
+            SourceKind::Str => "Str",
             SourceKind::SimBufRead => "SimBufRead",
             SourceKind::StdBufReader => "StdBufReader",
             SourceKind::SimAsyncBufRead => "SimAsyncBufRead",
